@@ -109,6 +109,10 @@ func genC04(g *h.G) {
 	tlbInit()
 	gc := tlbx.NewGenCtx(g.Rng, tlbU)
 	gc.ModelOnly = true
+	for _, tt := range tlbTypes {
+		g.Count("types_" + tt.Class)
+	}
+	g.Counters["structures_with_transcribed_schema"] = len(specStructs)
 	// (a) primitives: EXHAUSTIVE over the widths, boundary values plus random ones for each width
 	perWidth := g.Scale(3, 300)
 	emitInt := func(goType, st string, vals []*big.Int) {
